@@ -278,6 +278,40 @@ func scenarios() []scenario {
 		p := p
 		out = append(out, scenario{fmt.Sprintf("image/adobergb.LineariseImage RGBA64 2x7 parallelism %d", p), par(func() string { return tall(p) })})
 	}
+	// shapes whose rows do not divide among the workers the usual way: fewer rows
+	// than workers with a width that the worker count does not divide, a single
+	// column, in place and into a fresh destination
+	shaped := func(w, h, p int, inPlace bool) string {
+		src := image.NewRGBA64(image.Rect(0, 0, w, h))
+		fillPix(src.Pix, 7)
+		d := src
+		if !inPlace {
+			d = image.NewRGBA64(image.Rect(0, 0, w, h))
+		}
+		linear.TransformImageColor(d, src, p, func(c color.Color) color.RGBA64 {
+			r, g, b, a := c.RGBA()
+			return color.RGBA64{R: uint16(r/2 + 1), G: uint16(g / 2), B: uint16(b / 2), A: uint16(a)}
+		})
+		return pixString(d.Pix)
+	}
+	for _, sh := range []struct {
+		w, h, p int
+		inPlace bool
+	}{{5, 1, 2, true}, {5, 1, 2, false}, {7, 2, 3, true}, {5, 1, 4, true}, {1, 5, 2, true}, {7, 3, 4, false}} {
+		sh := sh
+		out = append(out, scenario{fmt.Sprintf("image/linear.TransformImageColor halve %dx%d parallelism %d in place=%v", sh.w, sh.h, sh.p, sh.inPlace), par(func() string { return shaped(sh.w, sh.h, sh.p, sh.inPlace) })})
+	}
+	// parallelism values at and below the documented minimum, from two goroutines at once
+	// (a negative value makes go-parallel panic on its WaitGroup: outside the property)
+	for _, p := range []int{1, 0} {
+		p := p
+		out = append(out, scenario{fmt.Sprintf("image/two ConvertImageTo* calls with parallelism %d", p), par(
+			func() string { return pixString(prism.ConvertImageToRGBA(mkSrc("RGBA64"), p).Pix) },
+			func() string { return pixString(prism.ConvertImageToNRGBA(mkSrc("YCbCr"), p).Pix) })})
+	}
+	out = append(out, scenario{"image/two transforms at once with parallelism 1", par(
+		func() string { return imgs[0].run(1) },
+		func() string { return imgs[3].run(1) })})
 	// two image transforms at once (each with its own workers), tables first touched inside workers
 	out = append(out, scenario{"image/two transforms at once", par(
 		func() string { return imgs[0].run(2) },
